@@ -22,6 +22,16 @@ Definition forest_ok : bool :=
                     end) g_classes.
 Definition names_nodup : bool := nodup_strb (map (fun e => fst (snd e)) g_classes).
 
+(* listing -> index, with the TEMPLATE_SUFFIX of /repo *)
+Definition p_tset (listing : list path) : tset := mk_tset g_template_suffix listing.
+(* a file named <ClassName><TEMPLATE_SUFFIX> is indexed under <ClassName>, for every class of the forest *)
+Definition class_names_index_ok : bool :=
+  negb (match g_template_suffix with [] => true | _ => false end) &&
+  forallb (fun e => let n := fst (snd e) in
+                    str_eqb (py_stem (n ++ g_template_suffix)) n && str_eqb (py_suffix (n ++ g_template_suffix)) g_template_suffix) g_classes.
+
+Definition g_builtin_templates : list (str * tset) := map (fun e => (fst e, p_tset (snd e))) g_builtin_listings.
+
 (* built-in template sets are antichains of the ancestor relation (no template for a class and for one of its proper ancestors) *)
 Definition proper_ancestors (c : cls) : list cls := tl (chain_n p_bases p_fuel c).
 Definition antichainb (t : tset) : bool :=
@@ -44,31 +54,31 @@ Definition families_disjointb : bool :=
   forallb (fun a => forallb (fun c => negb (isinst p_bases p_fuel a g_cls_Attribute && isinst p_bases p_fuel c g_cls_SerializableType
                                           && (isinst p_bases p_fuel a c || isinst p_bases p_fuel c a))) p_ids) p_ids.
 
+(* the test function is the T2 translation of _field_is_instance; q_dt_only = the hand model of the code before fix d35e4ad *)
 Definition p_test (q_dt_only : bool) (name : str) (v : value) : option bool :=
   match aget p_tests name with
-  | Some root => Some (field_is_instance p_bases q_dt_only p_fuel g_cls_Attribute root v)
+  | Some root => Some (if q_dt_only then field_is_instance p_bases true p_fuel g_cls_Attribute root v
+                       else g_field_is_instance (isinst p_bases p_fuel) g_cls_Attribute root (v_cls v) (v_dt v))
   | None => None
   end.
 Definition p_test_spec (name : str) (v : value) : option bool :=
   match aget p_tests name with Some root => Some (spec_test p_bases p_fuel g_cls_Attribute root v) | None => None end.
 
-(* loader: listing -> results of a sequence of type_to_template calls (and what get_source then loads) *)
-Definition p_lookup_seq (q_shared : bool) (pol : policy) (dirs pkg : option tset) (cs : list cls) : list (option path) :=
+(* loader: raw listings -> results of a sequence of type_to_template calls (and what get_source then loads) *)
+Definition p_index (o : option (list path)) : option (cls -> option path) := option_map (fun l => tmap p_name (p_tset l)) o.
+Definition p_lookup_seq (q_shared : bool) (pol : policy) (dirs pkg : option (list path)) (cs : list cls) : list (option path) :=
   let '(fs, pk) := mk_loaders pol dirs pkg in
-  run_seq p_bases q_shared (option_map (tmap p_name) fs) (option_map (tmap p_name) pk) p_fuel ([], []) cs.
-Definition p_spec_seq (pol : policy) (dirs pkg : option tset) (cs : list cls) : list (option path) :=
+  run_seq p_bases q_shared (p_index fs) (p_index pk) p_fuel [] cs.
+Definition p_spec_seq (pol : policy) (dirs pkg : option (list path)) (cs : list cls) : list (option path) :=
   let '(fs, pk) := mk_loaders pol dirs pkg in
-  map (fun c => spec_lookup (option_map (tmap p_name) fs) (option_map (tmap p_name) pk) (chain_n p_bases p_fuel c)) cs.
-Definition p_get_source (pol : policy) (dirs pkg : option tset) (name : path) : option source :=
+  map (fun c => spec_lookup (p_index fs) (p_index pk) (chain_n p_bases p_fuel c)) cs.
+Definition p_get_source (pol : policy) (dirs pkg : option (list path)) (name : path) : option source :=
   let '(fs, pk) := mk_loaders pol dirs pkg in get_source fs pk name.
 
 (* environment *)
-Definition p_reserved : list str := g_reserved_namespaces ++ g_reserved_names.
+Definition p_reserved : list str := g_gate_reserved.
+Definition p_gate_unchecked : bool := negb g_gate_checks_existing.
 Definition builtin_coll (names : list str) : coll := map (fun n => (n, OBuiltin)) names.
-Definition p_env_create (allow q_unchecked : bool) (filters0 tests0 lang_globals : list str)
-           (uglobals ufilters utests : list (str * N)) : option env :=
-  env_create allow q_unchecked (builtin_coll filters0) (builtin_coll tests0) g_jinja_globals p_reserved g_init_written lang_globals
-             uglobals ufilters utests p_test_names.
 
 (* the whole life of an environment: constructor (user globals/filters/tests), DSDL tests + the generator's own conventional
    methods when it belongs to a DSDLCodeGenerator, then later additions *)
